@@ -1,7 +1,7 @@
 SPECIFICATION Spec
 CONSTANTS K = 4
           Vals = {"x"}
-          Ranges = {14}
+          Ranges = {12, 34, 23}
           WithBatch = FALSE
           Mode = "mc"
           Depth = 0
